@@ -211,7 +211,9 @@ def nested_cli(ctx, res):
 
         def mk(pipe, name, dur):
             tn = "%s_%s" % (pipe, name)
-            tasks[tn] = {"command": ['echo "start %s %s" >> "$PROJ/trace"; sleep %s; echo "end %s %s" >> "$PROJ/trace"' % (pipe, name, dur, pipe, name)]}
+            # one file per mark, holding a nanosecond clock reading taken AFTER the start / BEFORE the end (concurrent appends to one
+            # file can interleave under load): a start measured before a dependency's measured end is a real overlap
+            tasks[tn] = {"command": ['date +%%s%%N > "$PROJ/m.start.%s.%s"; sleep %s; date +%%s%%N > "$PROJ/m.end.%s.%s"' % (pipe, name, dur, pipe, name)]}
             return tn
         inner_names = rng.sample(pool, rng.randint(1, 3))
         inner = []
@@ -242,7 +244,8 @@ def nested_cli(ctx, res):
         outer.append(last)
         pipes["pout"] = outer
         jobs.append({"id": len(jobs), "files": {"cfg.json": clilib.jcfg({"tasks": tasks, "pipelines": pipes})}, "argv": ["-c", "cfg.json", "--raw", "run", "pipeline", "pout"],
-                     "keep": ["trace"], "timeout": 30, "pipes": pipes})
+                     "keep": ["m.%s.%s.%s" % (k2, p2, st["name"]) for k2 in ("start", "end") for p2, key in (("in", "pin"), ("out", "pout")) for st in pipes[key] if "task" in st],
+                     "timeout": 30, "pipes": pipes})
     out = clilib.run_cli(ctx.workdir + "/nested", jobs, timeout=30)
     for j in jobs:
         r = out[j["id"]]
@@ -253,16 +256,21 @@ def nested_cli(ctx, res):
         if r["timeout"] or clilib.crashed(r) or r["rc"] != 0:
             res.violations.append({"class": None, "what": "running a pipeline with a nested pipeline failed, hung or crashed", "case": case, "observed": {"rc": r["rc"], "err": (r.get("err") or "")[-600:]}})
             continue
-        lines = [l.split() for l in (r["files"].get("trace") or "").split("\n") if l.strip()]
-        pos = {(kind, pipe, name): i for i, (kind, pipe, name) in enumerate(lines)}
-        inner_end = max([pos.get(("end", "in", st["name"]), -1) for st in j["pipes"]["pin"]] + [-1])
-        inner_start = min([pos.get(("start", "in", st["name"]), 10 ** 9) for st in j["pipes"]["pin"]] + [10 ** 9])
+        pos = {}
+        for fn, txt in r["files"].items():
+            parts = fn.split(".")
+            if len(parts) == 4 and txt.strip().isdigit():
+                pos[(parts[1], parts[2], parts[3])] = int(txt.strip())
+        lines = sorted((v, k) for k, v in pos.items())
+        INF = float("inf")
+        inner_end = max([pos.get(("end", "in", st["name"]), INF) for st in j["pipes"]["pin"]])          # the included pipeline has ended when all its stages have
+        inner_start = min([pos.get(("start", "in", st["name"]), INF) for st in j["pipes"]["pin"]])
 
         def ended(pipe, name):
-            return inner_end if (pipe == "out" and name == "included") else pos.get(("end", pipe, name), 10 ** 9)
+            return inner_end if (pipe == "out" and name == "included") else pos.get(("end", pipe, name), INF)
 
-        def started(pipe, name):
-            return inner_start if (pipe == "out" and name == "included") else pos.get(("start", pipe, name), -1)
+        def started(pipe, name):        # INF = never started: nothing to check
+            return inner_start if (pipe == "out" and name == "included") else pos.get(("start", pipe, name), INF)
         bad = None
         for pipe, key in (("in", "pin"), ("out", "pout")):
             for st in j["pipes"][key]:
@@ -271,7 +279,7 @@ def nested_cli(ctx, res):
                         bad = (pipe, st["name"], d)
         if bad:
             res.violations.append({"class": None, "what": "nested pipelines: stage `%s` of pipeline `%s` started before its dependency `%s` had finished" % (bad[1], bad[0], bad[2]),
-                                   "case": case, "observed": [" ".join(l) for l in lines]})
+                                   "case": case, "observed": ["%d %s" % (v, " ".join(k)) for v, k in lines]})
 
 
 def run(ctx, prop):
